@@ -26,7 +26,7 @@ import (
 	"verif/internal/vt"
 )
 
-var recCap = ev.New("c11/pool-cap", "rapid: a real IPClient with NTS exchanges keys with the harness's key-exchange server (8 cookies) and then talks to a harness NTS server that authenticates properly but answers the first request with 0..14 cookies instead of the one asked for; every later request is answered without any cookie, so that the number of further successful exchanges before the client has to exchange keys again is the size its pool had. Oracle: that size is at most 8 (and 7 plus the cookies delivered, if that is less). One evaluation = one history. Non-trivial: more than one cookie delivered; distinct by the count")
+var recCap = ev.New("c11/pool-cap", "rapid: a real IPClient with NTS exchanges keys with the harness's key-exchange server (8 cookies, or 9..16 for three cases in seven) and then talks to a harness NTS server that authenticates properly but answers the first request with 0..14 cookies instead of the one asked for; every later request is answered without any cookie, so that the number of further successful exchanges before the client has to exchange keys again is the size its pool had. Oracle: that size is at most 8 (and 7 plus the cookies delivered, if that is less). One evaluation = one history. Non-trivial: more than one cookie delivered; distinct by the count")
 
 func TestPropPoolCap(t *testing.T) {
 	addr := netlab.UDPAddr(netlab.Addr(6), 12414)
@@ -78,6 +78,9 @@ func TestPropPoolCap(t *testing.T) {
 	}
 	vt.Check(t, 25, 250, func(t *rapid.T) {
 		n := rapid.SampledFrom([]int{0, 1, 2, 3, 5, 6, 7, 8}).Draw(t, "cookies-in-first-reply")
+		keN := rapid.SampledFrom([]int{8, 8, 8, 9, 10, 12, 16}).Draw(t, "cookies-from-key-exchange")
+		keCookies.Store(int32(keN))
+		defer keCookies.Store(8)
 		c := &client.IPClient{Log: slog.New(slog.NewTextHandler(io.Discard, nil))}
 		c.Auth.Enabled = true
 		c.Auth.NTSKEFetcher = ntske.Fetcher{Log: c.Log, Port: strconv.Itoa(ke.Addr.Port),
@@ -113,9 +116,12 @@ func TestPropPoolCap(t *testing.T) {
 			}
 			pool++
 		}
-		want := min(8, 7+n)
+		want := min(8, min(8, keN)-1+n)
+		if keN > 8 {
+			recCap.Label("more-than-8-cookies-from-key-exchange")
+		}
 		if pool > 8 {
-			t.Fatalf("after one successful exchange whose reply carried %d cookies the pool held %d cookies (more than eight)", n, pool)
+			t.Fatalf("after a key exchange that delivered %d cookies and one successful exchange whose reply carried %d cookies the pool held %d cookies (more than eight)", keN, n, pool)
 		}
 		if pool != want {
 			t.Fatalf("after a reply with %d cookies the pool held %d cookies, expected %d", n, pool, want)
